@@ -16,6 +16,16 @@ pub enum SigVal {
     VecU8(Vec<u8>),
     VecU16(Vec<u16>),
     VecU32(Vec<u32>),
+    /// very large vectors described by (length, seed) so that the case stays small; element i = low bits of splitmix(seed + i)
+    BigU16(u32, u64),
+    BigU32(u32, u64),
+}
+
+fn sm(z0: u64) -> u64 {
+    let mut z = z0.wrapping_add(0x9E3779B97F4A7C15);
+    z = (z ^ (z >> 30)).wrapping_mul(0xBF58476D1CE4E5B9);
+    z = (z ^ (z >> 27)).wrapping_mul(0x94D049BB133111EB);
+    z ^ (z >> 31)
 }
 
 impl SigVal {
@@ -31,7 +41,20 @@ impl SigVal {
             SigVal::VecU8(_) => "Vec<u8>",
             SigVal::VecU16(_) => "Vec<u16>",
             SigVal::VecU32(_) => "Vec<u32>",
+            SigVal::BigU16(..) => "Vec<u16>",
+            SigVal::BigU32(..) => "Vec<u32>",
         }
+    }
+    /// expand the (length, seed) forms
+    pub fn materialize(&self) -> SigVal {
+        match self {
+            SigVal::BigU16(n, s) => SigVal::VecU16((0..*n as u64).map(|i| sm(s.wrapping_add(i)) as u16).collect()),
+            SigVal::BigU32(n, s) => SigVal::VecU32((0..*n as u64).map(|i| sm(s.wrapping_add(i)) as u32).collect()),
+            other => other.clone(),
+        }
+    }
+    pub fn is_big(&self) -> bool {
+        matches!(self, SigVal::BigU16(..) | SigVal::BigU32(..))
     }
     /// what the crate returns
     pub fn get_sig(&self) -> Vec<u8> {
@@ -46,6 +69,7 @@ impl SigVal {
             SigVal::VecU8(x) => x.get_sig(),
             SigVal::VecU16(x) => x.get_sig(),
             SigVal::VecU32(x) => x.get_sig(),
+            big => big.materialize().get_sig(),
         }
     }
     /// independent reference: native-endian bytes, concatenated for vectors, UTF-8 for strings
@@ -61,6 +85,7 @@ impl SigVal {
             SigVal::VecU8(x) => x.clone(),
             SigVal::VecU16(x) => x.iter().flat_map(|e| e.to_ne_bytes()).collect(),
             SigVal::VecU32(x) => x.iter().flat_map(|e| e.to_ne_bytes()).collect(),
+            big => big.materialize().reference(),
         }
     }
     /// the same value rebuilt with a different allocation history: spare capacity, and stale elements behind the length
@@ -79,6 +104,7 @@ impl SigVal {
             SigVal::VecU8(x) => SigVal::VecU8(re(x, 0xEE)),
             SigVal::VecU16(x) => SigVal::VecU16(re(x, 0xEEEE)),
             SigVal::VecU32(x) => SigVal::VecU32(re(x, 0xEEEE_EEEE)),
+            SigVal::BigU16(..) | SigVal::BigU32(..) => self.materialize().rebuilt(),
             SigVal::Str(x) => {
                 let mut s = String::with_capacity(x.len() + 29);
                 s.push_str(x);
@@ -95,6 +121,7 @@ impl SigVal {
             SigVal::VecU8(x) => x.len(),
             SigVal::VecU16(x) => x.len(),
             SigVal::VecU32(x) => x.len(),
+            SigVal::BigU16(n, _) | SigVal::BigU32(n, _) => *n as usize,
             _ => 1,
         }
     }
@@ -138,6 +165,7 @@ fn sha_run<D: Clone + Eq + std::fmt::Debug + std::hash::Hash + Sig>(keys: Vec<D>
 
 pub fn sha_probe(v: &SigVal) -> (Vec<u64>, Vec<u64>) {
     match v {
+        SigVal::BigU16(..) | SigVal::BigU32(..) => (vec![], vec![]),
         SigVal::U8(x) => sha_run(vec![*x, x.wrapping_add(1), x.wrapping_add(7)], 255u8.wrapping_sub(*x % 2)),
         SigVal::U16(x) => sha_run(vec![*x, x.wrapping_add(1), x.wrapping_mul(3)], u16::MAX),
         SigVal::U32(x) => sha_run(vec![*x, x.wrapping_add(1), x.wrapping_mul(3)], u32::MAX),
@@ -160,6 +188,13 @@ pub struct ProbeOut {
     pub sig_rebuilt: Vec<u8>,
     pub sha_fwd: Vec<u64>,
     pub sha_rev: Vec<u64>,
+    /// for very large values the three byte strings are replaced by (length, FNV-1a digest) pairs
+    #[serde(default)]
+    pub digests: Option<Vec<(u64, u64)>>,
+}
+
+pub fn digest(bytes: &[u8]) -> (u64, u64) {
+    (bytes.len() as u64, fnv(bytes))
 }
 
 pub fn probe(v: &SigVal, with_sha: bool) -> ProbeOut {
@@ -170,5 +205,9 @@ pub fn probe(v: &SigVal, with_sha: bool) -> ProbeOut {
     std::hint::black_box(&churn);
     let (sha_fwd, sha_rev) = if with_sha { sha_probe(v) } else { (vec![], vec![]) };
     let sig_rebuilt = v.rebuilt().get_sig();
-    ProbeOut { sig, sig_again, sig_rebuilt, sha_fwd, sha_rev }
+    if v.is_big() {
+        let digests = Some(vec![digest(&sig), digest(&sig_again), digest(&sig_rebuilt)]);
+        return ProbeOut { sig: vec![], sig_again: vec![], sig_rebuilt: vec![], sha_fwd, sha_rev, digests };
+    }
+    ProbeOut { sig, sig_again, sig_rebuilt, sha_fwd, sha_rev, digests: None }
 }
